@@ -101,6 +101,9 @@ func (g *jsonGen) value(d int) string {
 		if r.Intn(6) == 0 {
 			n = r.Intn(10)
 		}
+		if d >= 1 && r.Intn(40) == 0 {
+			n = 20 + r.Intn(40) // size diversity: long lists reach code short ones never execute
+		}
 		var sb strings.Builder
 		sb.WriteString("[")
 		for i := 0; i < n; i++ {
